@@ -968,6 +968,210 @@ let judge_cmaprd (hexin : string) (impl : string) : (string * string) option =
        if not (String.contains r '@') && ref_cmap_header s <> None then Some ("refusal", "the cmap header was refused: " ^ r) else None)
   | _ -> None
 
+(* ================================================================================================
+   C15, third part: item variation stores (ItemVariationData, VariationRegionList, ItemVariationStore,
+   the VariationStore of a CFF2 table).  Reference decoders over raw byte strings written after the
+   OpenType chapter "OpenType Font Variations Common Table Formats" (Item variation store) and the
+   CFF2 chapter (VariationStore Data = uint16 length + Item Variation Store); nothing of the
+   extracted model is used. *)
+type rivd = { vitems : int; vwdc : int; vidx : int list; vdeltas : string }
+type rvrl = { vaxes : int; vregions : int; vcoords : string }
+type rivs = { svrl : rvrl; ssubs : rivd list }
+(* row length: (regionIndexCount + wordDeltaCount) bytes, doubled under LONG_WORDS: the first
+   wordDeltaCount deltas take 2 (4) bytes, the others 1 (2) *)
+let ref_ivd_row (wdc : int) (nreg : int) : int =
+  let r = nreg + (wdc land 0x7fff) in if wdc land 0x8000 <> 0 then 2 * r else r
+let ref_ivd_decode (s : string) (pos : int) : (rivd * int) option =
+  try
+    need s pos 6;
+    let items = gu16 s pos and wdc = gu16 s (pos + 2) and nreg = gu16 s (pos + 4) in
+    need s (pos + 6) (2 * nreg);
+    let idx = List.init nreg (fun i -> gu16 s (pos + 6 + 2 * i)) in
+    let dl = items * ref_ivd_row wdc nreg in
+    need s (pos + 6 + 2 * nreg) dl;
+    Some ({ vitems = items; vwdc = wdc; vidx = idx; vdeltas = String.sub s (pos + 6 + 2 * nreg) dl }, 6 + 2 * nreg + dl)
+  with Short -> None
+let ref_ivd_encode (b : Buffer.t) (v : rivd) : unit =
+  pu16 b v.vitems; pu16 b v.vwdc; pu16 b (List.length v.vidx); List.iter (pu16 b) v.vidx; Buffer.add_string b v.vdeltas
+(* regionCount: the high bit is reserved; `None` here means "not a region list", `Some (_, _, false)`
+   a list whose reserved bit is set (a reader may refuse it) *)
+let ref_vrl_decode (s : string) (pos : int) : (rvrl * int * bool) option =
+  try
+    need s pos 4;
+    let axes = gu16 s pos and regions = gu16 s (pos + 2) in
+    let n = regions * axes * 6 in
+    need s (pos + 4) n;
+    Some ({ vaxes = axes; vregions = regions; vcoords = String.sub s (pos + 4) n }, 4 + n, regions < 32768)
+  with Short -> None
+let ref_vrl_encode (b : Buffer.t) (v : rvrl) : unit =
+  pu16 b v.vaxes; pu16 b v.vregions; Buffer.add_string b v.vcoords
+let ref_ivs_decode (s : string) : (rivs * bool) option =
+  try
+    need s 0 8;
+    if gu16 s 0 <> 1 then None else begin
+      let vo = gu32 s 2 and n = gu16 s 6 in
+      need s 8 (4 * n);
+      let offs = List.init n (fun i -> gu32 s (8 + 4 * i)) in
+      match ref_vrl_decode s vo with
+      | None -> None
+      | Some (vrl, _, clean) ->
+        let subs = List.map (fun o -> match ref_ivd_decode s o with Some (v, _) -> v | None -> raise Short) offs in
+        Some ({ svrl = vrl; ssubs = subs }, clean)
+    end
+  with Short -> None
+let short_hex (h : string) = if String.length h > 60 then String.sub h 0 60 ^ ".." else h
+let ivd_diff (a : rivd) (b : rivd) : string * string =
+  if a.vwdc <> b.vwdc then
+    ("flags", Printf.sprintf "the packed wordDeltaCount field was written as 0x%04x, the parsed value is 0x%04x (LONG_WORDS is bit 15, the count the low 15 bits)" b.vwdc a.vwdc)
+  else if a.vitems <> b.vitems then ("roundtrip", Printf.sprintf "itemCount written as %d, parsed %d" b.vitems a.vitems)
+  else if a.vidx <> b.vidx then ("roundtrip", "regionIndexCount / regionIndexes differ from the parsed ones")
+  else ("roundtrip", "the delta sets differ from the parsed ones")
+
+(* ivd|HEX *)
+let judge_ivd (hexin : string) (impl : string) : (string * string) option =
+  let ip = kvp impl in
+  let get k = try Some (List.assoc k ip) with Not_found -> None in
+  let s = raw_of_hex hexin in
+  match get "r", ref_ivd_decode s 0 with
+  | Some r, None when starts_with "ok:" r -> Some ("decode", "an ItemVariationData was read where the reference decoder finds none: " ^ r)
+  | Some r, Some _ when starts_with "err:" r -> Some ("refusal", "a well-formed ItemVariationData was refused: " ^ r)
+  | Some r, Some (v, n) when starts_with "ok:" r ->
+    if r <> "ok:" ^ string_of_int n then Some ("consumed", Printf.sprintf "the reader consumed %s, the sub-table takes %d bytes" r n)
+    else begin
+      let spec_valid = (v.vwdc land 0x7fff) <= List.length v.vidx in
+      match get "w" with
+      | None -> None
+      | Some w when not (ishex w) ->
+        if (not spec_valid) && w = "err:BadValue" then None
+        else Some ("refusal", "a parsed ItemVariationData whose fields all fit was not written: " ^ w)
+      | Some w ->
+        let wr = raw_of_hex w in
+        (match ref_ivd_decode wr 0 with
+         | None -> Some ("roundtrip", "the written bytes are not an ItemVariationData (row length of the written header does not match the data written): " ^ short_hex w)
+         | Some (v2, n2) ->
+           if v2 <> v then (let (c, m) = ivd_diff v v2 in Some (c, m))
+           else if n2 <> String.length wr then Some ("roundtrip", "bytes written beyond the sub-table")
+           else if get "r2" <> Some ("ok:" ^ string_of_int n) then Some ("stability", "re-reading the written bytes: " ^ (match get "r2" with Some x -> x | None -> "?"))
+           else if get "w2" <> Some w then Some ("stability", "write(parse(write(parse b))) differs from write(parse b)")
+           else None)
+    end
+  | _ -> None
+
+(* vrl|HEX *)
+let judge_vrl (hexin : string) (impl : string) : (string * string) option =
+  let ip = kvp impl in
+  let get k = try Some (List.assoc k ip) with Not_found -> None in
+  let s = raw_of_hex hexin in
+  match get "r", ref_vrl_decode s 0 with
+  | Some r, None when starts_with "ok:" r -> Some ("decode", "a VariationRegionList was read where the reference decoder finds none: " ^ r)
+  | Some r, Some (_, _, true) when starts_with "err:" r -> Some ("refusal", "a well-formed VariationRegionList was refused: " ^ r)
+  | Some r, Some (v, n, _) when starts_with "ok:" r ->
+    let shape = Printf.sprintf "ok:%d/%d/%d" n v.vregions v.vaxes in
+    if r <> shape then Some ("decode", "read " ^ r ^ ", the reference decoding is " ^ shape)
+    else (match get "w" with
+        | None -> None
+        | Some w when not (ishex w) -> Some ("refusal", "a parsed VariationRegionList was not written: " ^ w)
+        | Some w ->
+          let wr = raw_of_hex w in
+          (match ref_vrl_decode wr 0 with
+           | Some (v2, n2, _) when v2 = v && n2 = String.length wr ->
+             if get "r2" <> Some shape then Some ("stability", "re-reading the written bytes: " ^ (match get "r2" with Some x -> x | None -> "?"))
+             else if get "w2" <> Some w then Some ("stability", "second write differs") else None
+           | Some (v2, _, _) when v2.vaxes <> v.vaxes || v2.vregions <> v.vregions ->
+             Some ("truncation", Printf.sprintf "axisCount / regionCount written as %d / %d, parsed %d / %d" v2.vaxes v2.vregions v.vaxes v.vregions)
+           | _ -> Some ("roundtrip", "the written bytes are not the encoding of the parsed region list: " ^ short_hex w)))
+  | _ -> None
+
+(* ivs|HEX *)
+let judge_ivs (hexin : string) (impl : string) : (string * string) option =
+  let ip = kvp impl in
+  let get k = try Some (List.assoc k ip) with Not_found -> None in
+  let s = raw_of_hex hexin in
+  match get "r", ref_ivs_decode s with
+  | Some r, None when starts_with "ok:" r -> Some ("decode", "an ItemVariationStore was read where the reference decoder finds none: " ^ r)
+  | Some r, Some (_, true) when starts_with "err:" r -> Some ("refusal", "a well-formed ItemVariationStore was refused: " ^ r)
+  | Some r, Some (v, _) when starts_with "ok:" r ->
+    let shape = Printf.sprintf "ok:%d/%d" v.svrl.vregions (List.length v.ssubs) in
+    if r <> shape then Some ("decode", "read " ^ r ^ ", the reference decoding is " ^ shape)
+    else begin
+      let check (what : string) (w : string) : (string * string) option =
+        if not (ishex w) then Some ("refusal", "a parsed ItemVariationStore was not written (" ^ what ^ "): " ^ w)
+        else begin
+          let wr = raw_of_hex w in
+          match ref_ivs_decode wr with
+          | Some (v2, _) when v2 = v -> None
+          | res ->
+            (* say which field is off *)
+            let hdr = (try need wr 0 8; Some (gu16 wr 0, gu32 wr 2, gu16 wr 6) with Short -> None) in
+            let n = List.length v.ssubs in
+            (match hdr, res with
+             | Some (1, vo, cnt), _ when cnt = n && (match ref_vrl_decode wr vo with Some (x, _, _) -> x = v.svrl | None -> false) ->
+               (match res with
+                | Some (v2, _) ->
+                  let rec first a b = match a, b with
+                    | x :: ra, y :: rb -> if x = y then first ra rb else Some (ivd_diff x y)
+                    | _ -> None in
+                  (match first v.ssubs v2.ssubs with
+                   | Some (c, m) -> Some (c, what ^ ": " ^ m)
+                   | None -> Some ("roundtrip", what ^ ": the written store does not decode to the parsed one"))
+                | None -> Some ("offset", what ^ ": an itemVariationDataOffset of the written store does not point at a sub-table"))
+             | Some (1, _, cnt), _ when cnt <> n -> Some ("offset", Printf.sprintf "%s: itemVariationDataCount written as %d (read at byte 6, behind the Offset32 variationRegionListOffset), the store has %d sub-tables" what cnt n)
+             | Some (1, vo, _), _ -> Some ("offset", Printf.sprintf "%s: variationRegionListOffset (Offset32 at byte 2, from the start of the store) is %d and does not point at the region list" what vo)
+             | _ -> Some ("roundtrip", what ^ ": the written bytes are not an ItemVariationStore: " ^ short_hex w))
+        end in
+      match get "w" with
+      | None -> None
+      | Some w ->
+        (match check "fresh buffer" w with
+         | Some x -> Some x
+         | None ->
+           (match (match get "wp" with Some wp -> check "written behind 3 other bytes (offsets are from the start of the store)" wp | None -> None) with
+            | Some x -> Some x
+            | None ->
+              if get "r2" <> Some shape then Some ("stability", "re-reading the written store: " ^ (match get "r2" with Some x -> x | None -> "?"))
+              else if get "w2" <> Some w then Some ("stability", "write(parse(write(parse b))) differs from write(parse b)")
+              else None))
+    end
+  | _ -> None
+
+(* cff2f|PATH: r=ok:vs=HEX|none;ls=0|1;w=LEN;vs2=none|HEX@LENFIELD/ACTUAL|bad:WHY;t2=ok:vs=..|err:E;w2=same *)
+let judge_cff2f (path : string) (impl : string) : (string * string) option =
+  let ip = kvp impl in
+  let get k = try Some (List.assoc k ip) with Not_found -> None in
+  match get "r" with
+  | Some r when starts_with "ok:vs=" r ->
+    let vs = sub_after r 6 in
+    if vs <> "none" && not (ishex vs) then Some ("refusal", path ^ ": the parsed variation store is not written on its own: " ^ vs)
+    else (match get "w" with
+        | Some w when starts_with "err:" w -> Some ("refusal", path ^ ": the parsed CFF2 table was not written: " ^ w)
+        | Some _ ->
+          let vs2 = (match get "vs2" with Some x -> x | None -> "?") in
+          let store_ok =
+            if vs = "none" then (if vs2 = "none" then None else Some ("roundtrip", path ^ ": a variation store appeared in the written table: " ^ short_hex vs2))
+            else (match String.index_opt vs2 '@' with
+                | None -> Some ("roundtrip", path ^ ": the VariationStore data of the written CFF2 table (uint16 length + Item Variation Store at the Top DICT's vstore offset) is not readable: " ^ vs2)
+                | Some i ->
+                  let h = String.sub vs2 0 i and lens = sub_after vs2 (i + 1) in
+                  if starts_with "bad:" vs2 then Some ("roundtrip", path ^ ": the VariationStore data of the written CFF2 table (uint16 length + Item Variation Store at the Top DICT's vstore offset) is not readable: " ^ vs2)
+                  else if h <> vs then Some ("roundtrip", path ^ ": the variation store found in the written CFF2 table differs from the parsed one: " ^ short_hex h ^ " vs " ^ short_hex vs)
+                  else (match split_on '/' lens with
+                      | [a; b] when a = b -> None
+                      | _ -> Some ("truncation", path ^ ": the uint16 length in front of the written store / the bytes of the store: " ^ lens))) in
+          (match store_ok with
+           | Some x -> Some x
+           | None ->
+             (match get "t2" with
+              | Some t2 when starts_with "err:" t2 ->
+                if get "ls" = Some "1" then
+                  Some ("cff2-local-subrs", path ^ ": the written CFF2 table is refused on re-reading (" ^ t2 ^ "): the font has local subroutines")
+                else Some ("roundtrip", path ^ ": the written CFF2 table does not parse: " ^ t2)
+              | Some t2 when t2 <> r -> Some ("roundtrip", path ^ ": the variation store read back from the written CFF2 table differs from the parsed one")
+              | Some _ -> if get "w2" <> Some "same" then Some ("stability", path ^ ": second write " ^ (match get "w2" with Some x -> x | None -> "?")) else None
+              | None -> None))
+        | None -> None)
+  | Some r when starts_with "err:" r -> Some ("refusal", path ^ ": fixture CFF2 table refused: " ^ r)
+  | _ -> None
+
 (* filec|PATH: items=N#KIND HEX -> RESULT ## ... *)
 let filec_items (impl : string) : (string * string * string) list option =
   match String.index_opt impl '#' with
@@ -1120,6 +1324,7 @@ let run (input : string) : string =
   | "file" -> "n/a"
   | "filed" -> "n/a"
   | "filec" -> "n/a"
+  | "ivd" | "vrl" | "ivs" | "cff2f" -> "n/a"
   | "cg" -> cg_model (mode_of p.(1)) p.(2) p.(3) p.(4)
   | "cms" -> cms_model (p.(2) = "o") p.(3)
   | "cmsrd" -> cmsrd_model (p.(2) = "o") (bytes_of_hex p.(3))
@@ -1445,6 +1650,12 @@ let judge (input : string) (impl : string) (model : string) : verdict =
        | Some (c, w) -> viol c w
        | None -> if model = "n/a:big" then Agree else same ())
     | "cmaprd" -> (match judge_cmaprd p.(2) impl with Some (c, w) -> viol c w | None -> same ())
+    | "ivd" -> (match judge_ivd p.(1) impl with Some (c, w) -> viol c w | None -> if model = "n/a" then Agree else same ())
+    | "vrl" -> (match judge_vrl p.(1) impl with Some (c, w) -> viol c w | None -> if model = "n/a" then Agree else same ())
+    | "ivs" -> (match judge_ivs p.(1) impl with Some (c, w) -> viol c w | None -> if model = "n/a" then Agree else same ())
+    | "cff2f" ->
+      if impl = "pwp=nofile" || impl = "pwp=absent" then Agree
+      else (match judge_cff2f p.(1) impl with Some (c, w) -> viol c w | None -> Agree)
     | "filec" ->
       (match filec_items impl with
        | None -> if impl = "items=nofile" then Agree else Mismatch ("fixture items: " ^ impl)
@@ -1523,7 +1734,13 @@ let tag (input : string) (out : string) : string =
   let st_fmt s = match String.index_opt s ':' with Some i -> "-f" ^ String.sub s 0 i | None -> "" in
   let sub = match k with
     | "lay" | "rd" | "file" | "dict" | "dictw" -> "-" ^ List.nth p 1
-    | "filed" -> "-" ^ Filename.basename (List.nth p 1)
+    | "filed" | "cff2f" -> "-" ^ Filename.basename (List.nth p 1)
+    | "ivd" ->
+      (* histogram by flag / shape *)
+      (match (try Some (raw_of_hex (List.nth p 1)) with _ -> None) with
+       | Some s when String.length s >= 6 ->
+         (if gu16 s 2 land 0x8000 <> 0 then "-long" else "-short") ^ (if gu16 s 0 = 0 then "-noitems" else "")
+       | _ -> "-tiny")
     | "cms" -> "-" ^ List.nth p 2 ^ st_fmt (List.nth p 3)
     | "cmsrd" -> "-" ^ List.nth p 2
     | "glyphrd" when String.length (List.nth p 2) >= 2 && (List.nth p 2).[0] >= '8' && List.nth p 2 <> "-" -> "-composite"
